@@ -61,6 +61,7 @@ def streams(rng, tier):
         ("combos", G.combos("agg")),
         ("shapes", G.shapes("agg")),
         ("random", [G.random_call(rng, "agg") for _ in range(700 if q else 5000)]),
+        ("history", G.with_history(rng, [G.random_call(rng, "agg") for _ in range(250 if q else 2500)])),
         ("reduce", reduce_cases(rng, 150 if q else 1500)),
         ("malformed", G.malformed("agg")),
     ]
